@@ -625,4 +625,627 @@ mutual
       omega
 end
 
+
+/-! ### the release cascade (`ts_subtree_release` with its explicit stack) -/
+
+theorem liveCount_set_some {h : Heap D} {i : Nat} {c : Cell D} (c' : Cell D) (hc : cellAt h i = some c) :
+    liveCount (h.set i (some c')) = liveCount h := by
+  have hsome := cellAt_some hc
+  clear hc
+  induction h generalizing i with
+  | nil => simp at hsome
+  | cons x h ih =>
+    cases i with
+    | zero => simp at hsome; subst hsome; simp [liveCount, List.filter]
+    | succ i =>
+      have := ih (i := i) (by simpa using hsome)
+      simp only [liveCount] at this ⊢
+      cases x <;> simp [List.filter, this]
+
+theorem liveCount_set_none {h : Heap D} {i : Nat} {c : Cell D} (hc : cellAt h i = some c) :
+    liveCount (h.set i none) + 1 = liveCount h := by
+  have hsome := cellAt_some hc
+  clear hc
+  induction h generalizing i with
+  | nil => simp at hsome
+  | cons x h ih =>
+    cases i with
+    | zero => simp at hsome; subst hsome; simp [liveCount, List.filter]
+    | succ i =>
+      have := ih (i := i) (by simpa using hsome)
+      simp only [liveCount] at this ⊢
+      cases x <;> simp [List.filter] <;> omega
+
+theorem liveCount_setRc (h : Heap D) (i : Nat) (f : Nat → Nat) : liveCount (setRc h i f) = liveCount h := by
+  cases hc : cellAt h i with
+  | none => unfold setRc; rw [hc]
+  | some c => rw [setRc_of_cell hc]; exact liveCount_set_some _ hc
+
+/-- Invariant of the loop: counts are exact; the cells with count 0 are exactly those waiting on
+the stack (each once). -/
+structure WFS (h : Heap D) (owners : List (Ref D)) (st : List Nat) : Prop where
+  count : ∀ a, rcOf h a = cnt a owners + cnt a (kidsOf h)
+  pos : ∀ a c, cellAt h a = some c → 1 ≤ c.rc ∨ a ∈ st
+  stack : ∀ a, a ∈ st → ∃ c, cellAt h a = some c ∧ c.rc = 0
+  nodup : st.Nodup
+
+/-- While the children of the popped cell `i` are being released: `done` are the children already
+handled (their counts are decremented although cell `i` still physically links to them). -/
+structure FoldInv (h : Heap D) (owners : List (Ref D)) (st : List Nat) (i : Nat) (ci : Cell D)
+    (done : List (Ref D)) : Prop where
+  count : ∀ a, rcOf h a + cnt a done = cnt a owners + cnt a (kidsOf h)
+  pos : ∀ a c, cellAt h a = some c → 1 ≤ c.rc ∨ a ∈ st ∨ a = i
+  stack : ∀ a, a ∈ st → ∃ c, cellAt h a = some c ∧ c.rc = 0
+  nodup : st.Nodup
+  notin : i ∉ st
+  self : cellAt h i = some ci
+  selfrc : ci.rc = 0
+
+theorem foldInv_step {h : Heap D} {owners : List (Ref D)} {st : List Nat} {i : Nat} {ci : Cell D}
+    {done todo : List (Ref D)} (k : Ref D) (hk : ci.kids = done ++ k :: todo)
+    (inv : FoldInv h owners st i ci done) :
+    FoldInv (releaseKid (h, st) k).1 owners (releaseKid (h, st) k).2 i ci (done ++ [k]) := by
+  cases k with
+  | inl d =>
+    show FoldInv h owners st i ci (done ++ [Ref.inl d])
+    exact { inv with count := fun a => by have := inv.count a; rw [cnt_append]; simp only [cnt_cons_inl, cnt_nil]; omega }
+  | ptr kid =>
+    -- the child still has at least the link from cell `i` as an owner
+    have hle := cnt_kids_le kid h i ci inv.self
+    have hcnt : cnt kid ci.kids = cnt kid done + (1 + cnt kid todo) := by
+      rw [hk, cnt_append, cnt_cons_ptr]; simp
+    have hrc1 : 1 ≤ rcOf h kid := by have := inv.count kid; omega
+    obtain ⟨ck, hck⟩ : ∃ c, cellAt h kid = some c := by
+      unfold rcOf at hrc1
+      cases hx : cellAt h kid with
+      | some c => exact ⟨c, rfl⟩
+      | none => rw [hx] at hrc1; simp at hrc1
+    have hckrc : ck.rc = rcOf h kid := by unfold rcOf; rw [hck]
+    have hne : kid ≠ i := by
+      intro e; subst e
+      rw [inv.self] at hck; cases hck
+      rw [inv.selfrc] at hckrc; omega
+    have hcount : ∀ a, rcOf (decr h kid) a + cnt a (done ++ [Ref.ptr kid]) = cnt a owners + cnt a (kidsOf (decr h kid)) := by
+      intro a
+      have := inv.count a
+      simp only [decr, rcOf_setRc, kidsOf_setRc, cnt_append, cnt_cons_ptr, cnt_nil, hck, Option.isSome_some, and_true]
+      by_cases ha : a = kid
+      · subst ha; simp; omega
+      · have : ¬ kid = a := fun e => ha e.symm
+        simp [ha, this]; omega
+    have hself : cellAt (decr h kid) i = some ci := by
+      simp only [decr]; rw [cellAt_setRc_ne _ _ _ _ (Ne.symm hne)]; exact inv.self
+    have hcell : ∀ a c, cellAt (decr h kid) a = some c →
+        (a = kid ∧ c.rc = ck.rc - 1) ∨ (a ≠ kid ∧ cellAt h a = some c) := by
+      intro a c hc
+      by_cases ha : a = kid
+      · subst ha
+        simp only [decr] at hc
+        rw [cellAt_setRc_self _ _ _ hck] at hc
+        cases hc; exact Or.inl ⟨rfl, rfl⟩
+      · simp only [decr] at hc
+        rw [cellAt_setRc_ne _ _ _ _ ha] at hc
+        exact Or.inr ⟨ha, hc⟩
+    have hkid' : cellAt (decr h kid) kid = some { ck with rc := ck.rc - 1 } := by
+      simp only [decr]; exact cellAt_setRc_self _ _ _ hck
+    have hnotst : kid ∉ st := by
+      intro hm
+      obtain ⟨c, hc, hz⟩ := inv.stack kid hm
+      rw [hck] at hc; cases hc; omega
+    simp only [releaseKid]
+    by_cases hz : rcOf (decr h kid) kid = 0
+    · simp only [hz, if_true]
+      have hck0 : ck.rc - 1 = 0 := by
+        unfold rcOf at hz; rw [hkid'] at hz; exact hz
+      refine ⟨hcount, ?_, ?_, ?_, ?_, hself, inv.selfrc⟩
+      · intro a c hc
+        rcases hcell a c hc with ⟨ha, _⟩ | ⟨_, hc'⟩
+        · exact Or.inr (Or.inl (by rw [ha]; exact List.mem_cons_self))
+        · rcases inv.pos a c hc' with h1 | h1 | h1
+          · exact Or.inl h1
+          · exact Or.inr (Or.inl (List.mem_cons_of_mem _ h1))
+          · exact Or.inr (Or.inr h1)
+      · intro a ha
+        rcases List.mem_cons.mp ha with h1 | h1
+        · subst h1; exact ⟨_, hkid', hck0⟩
+        · obtain ⟨c, hc, hz'⟩ := inv.stack a h1
+          have hane : a ≠ kid := fun e => hnotst (e ▸ h1)
+          exact ⟨c, by simp only [decr]; rw [cellAt_setRc_ne _ _ _ _ hane]; exact hc, hz'⟩
+      · exact List.nodup_cons.mpr ⟨hnotst, inv.nodup⟩
+      · intro hm
+        rcases List.mem_cons.mp hm with h1 | h1
+        · exact hne h1.symm
+        · exact inv.notin h1
+    · simp only [hz, if_false]
+      have hck1 : 1 ≤ ck.rc - 1 := by
+        unfold rcOf at hz; rw [hkid'] at hz; simp at hz; omega
+      refine ⟨hcount, ?_, ?_, inv.nodup, inv.notin, hself, inv.selfrc⟩
+      · intro a c hc
+        rcases hcell a c hc with ⟨_, hrc⟩ | ⟨_, hc'⟩
+        · exact Or.inl (by omega)
+        · exact inv.pos a c hc'
+      · intro a ha
+        obtain ⟨c, hc, hz'⟩ := inv.stack a ha
+        have hane : a ≠ kid := fun e => hnotst (e ▸ ha)
+        exact ⟨c, by simp only [decr]; rw [cellAt_setRc_ne _ _ _ _ hane]; exact hc, hz'⟩
+
+theorem foldInv_all {owners : List (Ref D)} {i : Nat} {ci : Cell D} :
+    ∀ (todo done : List (Ref D)) (h : Heap D) (st : List Nat), ci.kids = done ++ todo →
+      FoldInv h owners st i ci done →
+      FoldInv (todo.foldl releaseKid (h, st)).1 owners (todo.foldl releaseKid (h, st)).2 i ci ci.kids := by
+  intro todo
+  induction todo with
+  | nil => intro done h st hk inv; simp at hk; rw [hk]; exact inv
+  | cons k todo ih =>
+    intro done h st hk inv
+    simp only [List.foldl_cons]
+    have := foldInv_step k hk inv
+    exact ih (done ++ [k]) _ _ (by simp [hk]) this
+
+theorem liveCount_releaseKids (ks : List (Ref D)) : ∀ hs : Heap D × List Nat,
+    liveCount (ks.foldl releaseKid hs).1 = liveCount hs.1 := by
+  induction ks with
+  | nil => intro hs; rfl
+  | cons k ks ih =>
+    intro hs
+    simp only [List.foldl_cons]
+    rw [ih]
+    cases k with
+    | inl d => rfl
+    | ptr kid =>
+      simp only [releaseKid]
+      split
+      · show liveCount (setRc hs.1 kid (· - 1)) = _; exact liveCount_setRc _ _ _
+      · show liveCount (setRc hs.1 kid (· - 1)) = _; exact liveCount_setRc _ _ _
+
+theorem wfs_nil {h : Heap D} {owners : List (Ref D)} (w : WFS h owners []) : WF h owners :=
+  ⟨w.count, fun a c hc => by rcases w.pos a c hc with h1 | h1; exact h1; cases h1⟩
+
+/-- The loop frees exactly the cells whose count reached zero, transitively, and re-establishes
+the invariant; `fuel ≥` number of live cells suffices (each iteration frees one). -/
+theorem releaseLoop_wf {owners : List (Ref D)} : ∀ (f : Nat) (h : Heap D) (st : List Nat),
+    WFS h owners st → liveCount h ≤ f → WF (releaseLoop f h st) owners
+  | 0, h, st, w, hf => by
+    have : st = [] := by
+      cases st with
+      | nil => rfl
+      | cons a st =>
+        obtain ⟨c, hc, _⟩ := w.stack a List.mem_cons_self
+        have := liveCount_set_none hc
+        omega
+    subst this
+    simp only [releaseLoop]
+    exact wfs_nil w
+  | f + 1, h, [], w, _ => by
+    simp only [releaseLoop]
+    exact wfs_nil w
+  | f + 1, h, i :: st, w, hf => by
+    obtain ⟨ci, hci, hz⟩ := w.stack i List.mem_cons_self
+    simp only [releaseLoop, hci]
+    have hnd := List.nodup_cons.mp w.nodup
+    have inv0 : FoldInv h owners st i ci [] :=
+      { count := fun a => by simpa using w.count a
+        pos := fun a c hc => by
+          rcases w.pos a c hc with h1 | h1
+          · exact Or.inl h1
+          · rcases List.mem_cons.mp h1 with h2 | h2
+            · exact Or.inr (Or.inr h2)
+            · exact Or.inr (Or.inl h2)
+        stack := fun a ha => w.stack a (List.mem_cons_of_mem _ ha)
+        nodup := hnd.2, notin := hnd.1, self := hci, selfrc := hz }
+    have inv := foldInv_all ci.kids [] h st (by simp) inv0
+    have hi := cellAt_lt inv.self
+    have hlive := liveCount_releaseKids ci.kids (h, st)
+    have hl2 := liveCount_set_none inv.self
+    apply releaseLoop_wf f
+    · refine ⟨fun a => ?_, ?_, ?_, inv.nodup⟩
+      · have hk := cnt_kidsOf_set a (ci.kids.foldl releaseKid (h, st)).1 i none hi
+        rw [cellAt_some inv.self] at hk
+        simp only [Option.getD_some, kidsOpt, cnt_nil] at hk
+        have hc := inv.count a
+        rw [rcOf_set_none _ _ _ hi]
+        by_cases hai : a = i
+        · subst hai
+          have : rcOf (ci.kids.foldl releaseKid (h, st)).1 a = 0 := by unfold rcOf; rw [inv.self]; exact inv.selfrc
+          have hle := cnt_kids_le a _ a ci inv.self
+          simp; omega
+        · simp [hai]; omega
+      · intro a c hc
+        rw [cellAt_set _ _ _ _ hi] at hc
+        by_cases hai : a = i
+        · simp [hai] at hc
+        · simp [hai] at hc
+          rcases inv.pos a c hc with h1 | h1 | h1
+          · exact Or.inl h1
+          · exact Or.inr h1
+          · exact absurd h1 hai
+      · intro a ha
+        obtain ⟨c, hc, hz'⟩ := inv.stack a ha
+        have hai : a ≠ i := fun e => inv.notin (e ▸ ha)
+        exact ⟨c, by rw [cellAt_set _ _ _ _ hi]; simp [hai, hc], hz'⟩
+    · simp only at hlive; omega
+
+theorem liveCount_le_length (h : Heap D) : liveCount h ≤ h.length := by
+  unfold liveCount; exact List.length_filter_le _ _
+
+/-- `ts_subtree_release`: dropping one owned reference re-establishes the invariant for the rest. -/
+theorem release_wf {h : Heap D} {X : List (Ref D)} (r : Ref D) (hw : WF h (r :: X)) : WF (release h r) X := by
+  cases r with
+  | inl d => exact (wf_inl_cons d).mp hw
+  | ptr i =>
+    obtain ⟨c, hc⟩ := hw.live (id := i) (by simp [cnt]; omega)
+    have hpos := hw.pos i c hc
+    have hrc : rcOf h i = c.rc := by unfold rcOf; rw [hc]
+    simp only [release]
+    by_cases h2 : 2 ≤ c.rc
+    · have := decr_wf hw (by omega)
+      have hnz : rcOf (decr h i) i ≠ 0 := by
+        simp only [decr, rcOf_setRc, hc, Option.isSome_some, and_true, if_true]; omega
+      simp [hnz]; exact this
+    · have h1 : c.rc = 1 := by omega
+      have hcell : cellAt (decr h i) i = some { c with rc := 0 } := by
+        simp only [decr]; rw [cellAt_setRc_self _ _ _ hc]; simp [h1]
+      have hz : rcOf (decr h i) i = 0 := by unfold rcOf; rw [hcell]
+      simp only [hz, if_true]
+      apply releaseLoop_wf
+      · refine ⟨fun a => ?_, ?_, ?_, by simp⟩
+        · have := hw.count a
+          simp only [cnt_cons_ptr] at this
+          simp only [decr, rcOf_setRc, kidsOf_setRc, hc, Option.isSome_some, and_true]
+          by_cases hai : a = i
+          · subst hai; simp at this ⊢; omega
+          · have : ¬ i = a := fun e => hai e.symm
+            simp [hai, this] at *; omega
+        · intro a c' hc'
+          by_cases hai : a = i
+          · exact Or.inr (by simp [hai])
+          · simp only [decr] at hc'
+            rw [cellAt_setRc_ne _ _ _ _ hai] at hc'
+            exact Or.inl (hw.pos a c' hc')
+        · intro a ha
+          simp at ha; subst ha
+          exact ⟨_, hcell, rfl⟩
+      · have := liveCount_le_length (decr h i)
+        have hl : (decr h i).length = h.length := length_setRc _ _ _
+        omega
+
+
+/-! ### what a reference observes, and when heap updates cannot be seen through it -/
+
+/-- Every live cell of `h` is still there in `h'` with the same children and payload
+(reference counts may differ, new cells may have appeared). -/
+def Ext (h h' : Heap D) : Prop :=
+  ∀ j c, cellAt h j = some c → ∃ c', cellAt h' j = some c' ∧ c'.kids = c.kids ∧ c'.data = c.data
+
+theorem Ext.refl (h : Heap D) : Ext h h := fun _ c hc => ⟨c, hc, rfl, rfl⟩
+
+theorem Ext.trans {a b c : Heap D} (h1 : Ext a b) (h2 : Ext b c) : Ext a c := by
+  intro j x hx
+  obtain ⟨y, hy, hk, hd⟩ := h1 j x hx
+  obtain ⟨z, hz, hk', hd'⟩ := h2 j y hy
+  exact ⟨z, hz, hk'.trans hk, hd'.trans hd⟩
+
+theorem ext_setRc (h : Heap D) (i : Nat) (f : Nat → Nat) : Ext h (setRc h i f) := by
+  intro j c hc
+  by_cases hji : j = i
+  · subst hji; exact ⟨_, cellAt_setRc_self _ _ _ hc, rfl, rfl⟩
+  · exact ⟨c, by rw [cellAt_setRc_ne _ _ _ _ hji]; exact hc, rfl, rfl⟩
+
+theorem ext_retain (h : Heap D) (r : Ref D) : Ext h (retain h r) := by
+  cases r with
+  | inl d => exact Ext.refl h
+  | ptr i => exact ext_setRc h i _
+
+theorem ext_retainAll (ks : List (Ref D)) : ∀ h : Heap D, Ext h (retainAll h ks) := by
+  induction ks with
+  | nil => intro h; exact Ext.refl h
+  | cons k ks ih => intro h; simp only [retainAll, List.foldl_cons] at ih ⊢; exact (ext_retain h k).trans (ih _)
+
+theorem ext_append (h x : Heap D) : Ext h (h ++ x) := by
+  intro j c hc
+  exact ⟨c, by rw [cellAt_append_left _ _ _ (cellAt_lt hc)]; exact hc, rfl, rfl⟩
+
+theorem ext_releaseKids (ks : List (Ref D)) : ∀ hs : Heap D × List Nat, Ext hs.1 (ks.foldl releaseKid hs).1 := by
+  induction ks with
+  | nil => intro hs; exact Ext.refl _
+  | cons k ks ih =>
+    intro hs
+    simp only [List.foldl_cons]
+    refine Ext.trans ?_ (ih _)
+    cases k with
+    | inl d => exact Ext.refl _
+    | ptr kid =>
+      simp only [releaseKid]
+      split
+      · show Ext hs.1 (setRc hs.1 kid (· - 1)); exact ext_setRc _ _ _
+      · show Ext hs.1 (setRc hs.1 kid (· - 1)); exact ext_setRc _ _ _
+
+mutual
+  /-- Observations survive any heap change that keeps the visited cells' children and payload. -/
+  theorem unfold_ext {h h' : Heap D} (he : Ext h h') : ∀ (f : Nat) (r : Ref D) (t : OTree D),
+      unfold f h r = some t → unfold f h' r = some t
+    | _, .inl d, t, hu => by unfold unfold at hu ⊢; exact hu
+    | 0, .ptr i, t, hu => by unfold unfold at hu; cases hu
+    | f + 1, .ptr i, t, hu => by
+      unfold unfold at hu ⊢
+      cases hc : cellAt h i with
+      | none => rw [hc] at hu; cases hu
+      | some c =>
+        rw [hc] at hu
+        obtain ⟨c', hc', hk, hd⟩ := he i c hc
+        rw [hc']
+        simp only [Option.map_eq_some_iff] at hu ⊢
+        obtain ⟨ts, hts, ht⟩ := hu
+        exact ⟨ts, by rw [hk]; exact unfoldL_ext he f c.kids ts hts, by rw [hd]; exact ht⟩
+  theorem unfoldL_ext {h h' : Heap D} (he : Ext h h') : ∀ (f : Nat) (ks : List (Ref D)) (ts : List (OTree D)),
+      unfoldL f h ks = some ts → unfoldL f h' ks = some ts
+    | _, [], ts, hu => by unfold unfoldL at hu ⊢; exact hu
+    | f, k :: ks, ts, hu => by
+      unfold unfoldL at hu ⊢
+      cases h1 : unfold f h k with
+      | none => rw [h1] at hu; cases hu
+      | some t =>
+        cases h2 : unfoldL f h ks with
+        | none => rw [h1, h2] at hu; cases hu
+        | some ts' =>
+          rw [h1, h2] at hu
+          rw [unfold_ext he f k t h1, unfoldL_ext he f ks ts' h2]
+          exact hu
+end
+
+theorem cnt_zero_not_mem {i : Nat} {rs : List (Ref D)} (h : cnt i rs = 0) : Ref.ptr i ∉ rs := by
+  intro hm; have := cnt_pos_of_mem hm; omega
+
+theorem cnt_cons_zero {i : Nat} {r : Ref D} {rs : List (Ref D)} (h : cnt i (r :: rs) = 0) :
+    r ≠ .ptr i ∧ cnt i rs = 0 := by
+  rw [cnt_cons] at h
+  refine ⟨?_, by omega⟩
+  intro e; subst e; simp [cnt] at h
+
+mutual
+  /-- A slot that no child link points to (and that is not the reference we start from) is never
+  visited: overwriting it cannot be observed. -/
+  theorem unfold_set_unref {h : Heap D} {i : Nat} (o : Option (Cell D)) (hi : i < h.length)
+      (hz : cnt i (kidsOf h) = 0) : ∀ (f : Nat) (r : Ref D) (t : OTree D), r ≠ .ptr i →
+      unfold f h r = some t → unfold f (h.set i o) r = some t
+    | _, .inl d, t, _, hu => by unfold unfold at hu ⊢; exact hu
+    | 0, .ptr j, t, _, hu => by unfold unfold at hu; cases hu
+    | f + 1, .ptr j, t, hne, hu => by
+      have hji : j ≠ i := fun e => hne (by rw [e])
+      unfold unfold at hu ⊢
+      rw [cellAt_set _ _ _ _ hi]
+      simp only [hji, if_false]
+      cases hc : cellAt h j with
+      | none => rw [hc] at hu; cases hu
+      | some c =>
+        rw [hc] at hu
+        simp only [Option.map_eq_some_iff] at hu ⊢
+        obtain ⟨ts, hts, ht⟩ := hu
+        have hck : cnt i c.kids = 0 := by have := cnt_kids_le i h j c hc; omega
+        exact ⟨ts, unfoldL_set_unref o hi hz f c.kids ts hck hts, ht⟩
+  theorem unfoldL_set_unref {h : Heap D} {i : Nat} (o : Option (Cell D)) (hi : i < h.length)
+      (hz : cnt i (kidsOf h) = 0) : ∀ (f : Nat) (ks : List (Ref D)) (ts : List (OTree D)), cnt i ks = 0 →
+      unfoldL f h ks = some ts → unfoldL f (h.set i o) ks = some ts
+    | _, [], ts, _, hu => by unfold unfoldL at hu ⊢; exact hu
+    | f, k :: ks, ts, hk, hu => by
+      have hk' := cnt_cons_zero hk
+      unfold unfoldL at hu ⊢
+      cases h1 : unfold f h k with
+      | none => rw [h1] at hu; cases hu
+      | some t =>
+        cases h2 : unfoldL f h ks with
+        | none => rw [h1, h2] at hu; cases hu
+        | some ts' =>
+          rw [h1, h2] at hu
+          rw [unfold_set_unref o hi hz f k t hk'.1 h1, unfoldL_set_unref o hi hz f ks ts' hk'.2 h2]
+          exact hu
+end
+
+
+/-! ### isolation: what other owners observe is untouched by an edit -/
+
+/-- For a shared cell `make_mut` is: clone, then one plain decrement of the original. -/
+theorem makeMut_shared_eq {h : Heap D} {X : List (Ref D)} {i : Nat} {c : Cell D} (hw : WF h (.ptr i :: X))
+    (hc : cellAt h i = some c) (h1 : c.rc ≠ 1) : makeMut h i = (decr (clone h c).1 i, (clone h c).2) := by
+  have hpos := hw.pos i c hc
+  have hlen : (retainAll h c.kids).length = h.length := length_retainAll _ _
+  have hi_lt : i < (retainAll h c.kids).length := by rw [hlen]; exact cellAt_lt hc
+  have hrc2 : 2 ≤ rcOf (clone h c).1 i := by
+    have : rcOf (clone h c).1 i = rcOf (retainAll h c.kids) i := by
+      unfold rcOf clone; simp only; rw [cellAt_append_left _ _ _ hi_lt]
+    rw [this]
+    have := rcOf_retainAll_ge c.kids h i
+    have hr : rcOf h i = c.rc := by unfold rcOf; rw [hc]
+    omega
+  have hrel : release (clone h c).1 (.ptr i) = decr (clone h c).1 i := by
+    unfold release
+    have : rcOf (decr (clone h c).1 i) i ≠ 0 := by
+      have hlive : (cellAt (clone h c).1 i).isSome := by
+        unfold rcOf at hrc2
+        cases hx : cellAt (clone h c).1 i with
+        | some _ => rfl
+        | none => rw [hx] at hrc2; simp at hrc2
+      simp only [decr, rcOf_setRc, hlive, and_true, if_true]
+      omega
+    simp [this]
+  unfold makeMut
+  simp only [hc, h1, if_false, hrel]
+
+theorem makeMut_ext {h : Heap D} {X : List (Ref D)} {i : Nat} (hw : WF h (.ptr i :: X)) : Ext h (makeMut h i).1 := by
+  obtain ⟨c, hc⟩ := hw.live (id := i) (by simp [cnt]; omega)
+  by_cases h1 : c.rc = 1
+  · unfold makeMut; simp only [hc, h1, if_true]; exact Ext.refl h
+  · rw [makeMut_shared_eq hw hc h1]
+    simp only [clone]
+    exact ((ext_retainAll c.kids h).trans (ext_append _ _)).trans (ext_setRc _ _ _)
+
+mutual
+  /-- `edit_frame`: whatever the other owners `X` (other handles, siblings being edited later)
+  could observe before an edit of `r`, they observe unchanged afterwards. -/
+  theorem editRef_frame : ∀ (spec : EditSpec D) (h : Heap D) (r : Ref D) (X : List (Ref D)), WF h (r :: X) →
+      ∀ x, x ∈ X → ∀ (f : Nat) (t : OTree D), unfold f h x = some t → unfold f (editRef h r spec).1 x = some t
+    | .skip, h, r, X, _, x, _, f, t, hu => by unfold editRef; exact hu
+    | .visit nd promote specs, h, .inl d, X, _, x, _, f, t, hu => by
+      unfold editRef
+      by_cases hp : promote = true
+      · simp only [hp, if_true]; exact unfold_ext (ext_append _ _) f x t hu
+      · simp only [hp]; exact hu
+    | .visit nd promote specs, h, .ptr id0, X, hw, x, hx, f, t, hu => by
+      obtain ⟨hw1, c, c', hc, hc', hrc, hkids, hdata⟩ := makeMut_wf hw
+      have hext1 := makeMut_ext hw
+      have hu1 := unfold_ext hext1 f x t hu
+      have hi := cellAt_lt hc'
+      -- the cell to be rewritten is referenced by nobody else
+      have hrc1 : rcOf (makeMut h id0).1 (makeMut h id0).2 = 1 := by unfold rcOf; rw [hc']; exact hrc
+      have hexcl := hw1.count (makeMut h id0).2
+      simp only [cnt_cons_ptr, if_true, hrc1] at hexcl
+      have hxne : x ≠ .ptr (makeMut h id0).2 := by
+        intro e; subst e
+        have := cnt_pos_of_mem hx; omega
+      have hu2 := unfold_set_unref none hi (by omega) f x t hxne hu1
+      have hw2 := takeOut_wf hw1 hc' hrc
+      have hu3 := editKids_frame specs _ c'.kids X hw2 x hx f t hu2
+      have ih := editKids_ok specs ((makeMut h id0).1.set (makeMut h id0).2 none) c'.kids X hw2
+      have hdead2 : cellAt ((makeMut h id0).1.set (makeMut h id0).2 none) (makeMut h id0).2 = none := by
+        rw [cellAt_set _ _ _ _ hi]; simp
+      have hi2 : (makeMut h id0).2 < ((makeMut h id0).1.set (makeMut h id0).2 none).length := by simpa using hi
+      have hdead3 := ih.2.2 _ hi2 hdead2
+      have hi3 := Nat.lt_of_lt_of_le hi2 ih.2.1
+      have hz3 := ih.1.count (makeMut h id0).2
+      have hr0 : rcOf (editKids ((makeMut h id0).1.set (makeMut h id0).2 none) c'.kids specs).1 (makeMut h id0).2 = 0 := by
+        unfold rcOf; rw [hdead3]
+      rw [hr0, cnt_append] at hz3
+      unfold editRef
+      simp only [hc']
+      exact unfold_set_unref _ hi3 (by omega) f x t hxne hu3
+  theorem editKids_frame : ∀ (specs : List (EditSpec D)) (h : Heap D) (ks : List (Ref D)) (X : List (Ref D)),
+      WF h (ks ++ X) → ∀ x, x ∈ X → ∀ (f : Nat) (t : OTree D), unfold f h x = some t →
+        unfold f (editKids h ks specs).1 x = some t
+    | _, h, [], X, _, x, _, f, t, hu => by unfold editKids; exact hu
+    | [], h, k :: ks, X, _, x, _, f, t, hu => by unfold editKids; exact hu
+    | s :: ss, h, k :: ks, X, hw, x, hx, f, t, hu => by
+      unfold editKids
+      have hw0 : WF h (k :: (ks ++ X)) := by simpa using hw
+      have h1 := editRef_ok s h k (ks ++ X) hw0
+      have hu1 := editRef_frame s h k (ks ++ X) hw0 x (List.mem_append_right _ hx) f t hu
+      have hw1' : WF (editRef h k s).1 (ks ++ ((editRef h k s).2 :: X)) :=
+        wf_perm h1.1 (fun id => by
+          rw [cnt_cons, cnt_append, cnt_append, cnt_cons id (editRef h k s).2 X]; omega)
+      exact editKids_frame ss (editRef h k s).1 ks ((editRef h k s).2 :: X) hw1' x (List.mem_cons_of_mem _ hx) f t hu1
+end
+
+
+/-! ### isolation: what the remaining owners observe is untouched by a release -/
+
+/-- One iteration of the release loop: pop `i`, release its children, free it. -/
+theorem pop_step {h : Heap D} {owners : List (Ref D)} {i : Nat} {st : List Nat} (w : WFS h owners (i :: st)) :
+    ∃ ci, cellAt h i = some ci ∧
+      WFS ((ci.kids.foldl releaseKid (h, st)).1.set i none) owners (ci.kids.foldl releaseKid (h, st)).2 ∧
+      liveCount ((ci.kids.foldl releaseKid (h, st)).1.set i none) + 1 = liveCount h ∧
+      (∀ x, x ∈ owners → ∀ (f : Nat) (t : OTree D), unfold f h x = some t →
+        unfold f ((ci.kids.foldl releaseKid (h, st)).1.set i none) x = some t) := by
+  obtain ⟨ci, hci, hz⟩ := w.stack i List.mem_cons_self
+  refine ⟨ci, hci, ?_⟩
+  have hnd := List.nodup_cons.mp w.nodup
+  have inv0 : FoldInv h owners st i ci [] :=
+    { count := fun a => by simpa using w.count a
+      pos := fun a c hc => by
+        rcases w.pos a c hc with h1 | h1
+        · exact Or.inl h1
+        · rcases List.mem_cons.mp h1 with h2 | h2
+          · exact Or.inr (Or.inr h2)
+          · exact Or.inr (Or.inl h2)
+      stack := fun a ha => w.stack a (List.mem_cons_of_mem _ ha)
+      nodup := hnd.2, notin := hnd.1, self := hci, selfrc := hz }
+  have inv := foldInv_all ci.kids [] h st (by simp) inv0
+  have hi := cellAt_lt inv.self
+  have hlive := liveCount_releaseKids ci.kids (h, st)
+  have hl2 := liveCount_set_none inv.self
+  have hci0 := inv.count i
+  have hri : rcOf (ci.kids.foldl releaseKid (h, st)).1 i = 0 := by unfold rcOf; rw [inv.self]; exact inv.selfrc
+  have hle := cnt_kids_le i _ i ci inv.self
+  -- nobody refers to the cell being freed
+  have hw0 := w.count i
+  have hr0 : rcOf h i = 0 := by unfold rcOf; rw [hci]; exact hz
+  have hkz : cnt i ci.kids = 0 := by have := cnt_kids_le i h i ci hci; omega
+  refine ⟨?_, by simp only at hlive; omega, ?_⟩
+  · refine ⟨fun a => ?_, ?_, ?_, inv.nodup⟩
+    · have hk := cnt_kidsOf_set a (ci.kids.foldl releaseKid (h, st)).1 i none hi
+      rw [cellAt_some inv.self] at hk
+      simp only [Option.getD_some, kidsOpt, cnt_nil] at hk
+      have hc := inv.count a
+      rw [rcOf_set_none _ _ _ hi]
+      by_cases hai : a = i
+      · subst hai; simp; omega
+      · simp [hai]; omega
+    · intro a c hc
+      rw [cellAt_set _ _ _ _ hi] at hc
+      by_cases hai : a = i
+      · simp [hai] at hc
+      · simp [hai] at hc
+        rcases inv.pos a c hc with h1 | h1 | h1
+        · exact Or.inl h1
+        · exact Or.inr h1
+        · exact absurd h1 hai
+    · intro a ha
+      obtain ⟨c, hc, hz'⟩ := inv.stack a ha
+      have hai : a ≠ i := fun e => inv.notin (e ▸ ha)
+      exact ⟨c, by rw [cellAt_set _ _ _ _ hi]; simp [hai, hc], hz'⟩
+  · intro x hx f t hu
+    have hu1 := unfold_ext (ext_releaseKids ci.kids (h, st)) f x t hu
+    have hxne : x ≠ .ptr i := by
+      intro e; subst e
+      have := cnt_pos_of_mem hx; omega
+    exact unfold_set_unref none hi (by omega) f x t hxne hu1
+
+theorem releaseLoop_frame {owners : List (Ref D)} : ∀ (fuel : Nat) (h : Heap D) (st : List Nat),
+    WFS h owners st → ∀ x, x ∈ owners → ∀ (f : Nat) (t : OTree D), unfold f h x = some t →
+      unfold f (releaseLoop fuel h st) x = some t
+  | 0, h, st, _, x, _, f, t, hu => by simp only [releaseLoop]; exact hu
+  | _ + 1, h, [], _, x, _, f, t, hu => by simp only [releaseLoop]; exact hu
+  | fuel + 1, h, i :: st, w, x, hx, f, t, hu => by
+    obtain ⟨ci, hci, w', _, hfr⟩ := pop_step w
+    simp only [releaseLoop, hci]
+    exact releaseLoop_frame fuel _ _ w' x hx f t (hfr x hx f t hu)
+
+/-- `release_frame`: dropping one owned reference — with the whole cascade of frees it may cause —
+cannot be observed through any of the remaining owners. -/
+theorem release_frame {h : Heap D} {X : List (Ref D)} (r : Ref D) (hw : WF h (r :: X)) :
+    ∀ x, x ∈ X → ∀ (f : Nat) (t : OTree D), unfold f h x = some t → unfold f (release h r) x = some t := by
+  intro x hx f t hu
+  cases r with
+  | inl d => exact hu
+  | ptr i =>
+    obtain ⟨c, hc⟩ := hw.live (id := i) (by simp [cnt]; omega)
+    have hu1 := unfold_ext (ext_setRc h i (· - 1)) f x t hu
+    simp only [release]
+    split
+    · rename_i hz
+      have hcell : cellAt (decr h i) i = some { c with rc := c.rc - 1 } := by
+        simp only [decr]; exact cellAt_setRc_self _ _ _ hc
+      have hz' : c.rc - 1 = 0 := by unfold rcOf at hz; rw [hcell] at hz; exact hz
+      have hpos := hw.pos i c hc
+      apply releaseLoop_frame _ _ _ _ x hx f t hu1
+      refine ⟨fun a => ?_, ?_, ?_, by simp⟩
+      · have := hw.count a
+        simp only [cnt_cons_ptr] at this
+        try simp only [decr]
+        simp only [rcOf_setRc, kidsOf_setRc, hc, Option.isSome_some, and_true]
+        by_cases hai : a = i
+        · subst hai
+          have hr : rcOf h a = c.rc := by unfold rcOf; rw [hc]
+          simp at this ⊢; omega
+        · have : ¬ i = a := fun e => hai e.symm
+          simp [hai, this] at *; omega
+      · intro a c' hc'
+        by_cases hai : a = i
+        · exact Or.inr (by simp [hai])
+        · try simp only [decr] at hc'
+          rw [cellAt_setRc_ne _ _ _ _ hai] at hc'
+          exact Or.inl (hw.pos a c' hc')
+      · intro a ha
+        simp at ha; subst ha
+        exact ⟨_, hcell, hz'⟩
+    · exact hu1
+
 end TsVerif.C08
